@@ -166,12 +166,20 @@ def _call(two_d, name, e, x, z, y, kw):
 def spied(row, two_d, name, e, x, z, y, kw):
     """(outcome, params, spy): outcome 'returned' | exception type name"""
     spy = LoopSpy(row['file'], row['name'])
+    saved = None
+    if row['name'] == '_sparse_beads':
+        import pybaselines.misc as misc
+        saved = misc._HAS_NUMBA
+        misc._HAS_NUMBA = False       # beads uses its sparse implementation when Numba is absent: route the call there
     try:
         with spy:
             b, p = _call(two_d, name, e, x, z, y, kw)
         return 'returned', p, spy
     except Exception as ex:       # noqa: BLE001 - the kind of exception is the observation
         return type(ex).__name__, None, spy
+    finally:
+        if saved is not None:
+            misc._HAS_NUMBA = saved
 
 
 def _method_of(key):
@@ -213,15 +221,25 @@ def replay_single(ctx, key, func, r, rng, K=8, smooth=False, force=None, data=No
     K = max(K, r['guard'])
     out, p, spy = spied(r, two_d, name, e, x, z, y, dict(kw0, max_iter=K, tol=0))
     if spy.calls == 0:
-        ctx.count('looptbl:function-not-reached')
+        ctx.count('looptbl:function-not-reached:' + func)
         return dis
     if out != 'returned' or 'tol_history' not in p or spy.final is None:
-        ctx.count('looptbl:reference-run-' + out)
+        ctx.count(f'looptbl:reference-run-{out}:{key}')
+        if out == 'IndexError':
+            bad(f'(max_iter={K}, tol=0) raised IndexError (theorem (a): every write of the loop is inside the allocation)', {'max_iter': K, 'tol': 0})
         return dis
     budget = max(0, r['hi'][0] * K + r['hi'][1] - r['lo'])
     ret = np.asarray(p['tol_history'])
     full = spy.values()
-    L = ret.shape[0]
+    if np.any(ret.view(np.uint64) == MARK_BITS):
+        bad(f'(max_iter={K}, tol=0): the returned tol_history ({ret.shape[0]} entries) contains {int(np.sum(ret.view(np.uint64) == MARK_BITS))} '
+            f'entries that were never written (uninitialised np.empty memory)', {'max_iter': K, 'tol': 0})
+    # the stream is what the run WROTE (in index order), not what it handed back
+    widx = sorted(set(int(ix[0]) for ix in spy.written()))
+    L = len(widx)
+    if widx != list(range(L)):
+        bad(f'(max_iter={K}, tol=0): the run wrote tol_history at indices {widx}, not at 0..{L - 1}', {'max_iter': K, 'tol': 0}, False)
+        return dis
     stream = (full[:L] if full.ndim == 1 else full[:L, 0]).tolist()
     second = None if full.ndim == 1 else full[:L, 1].tolist()
     if not all(np.isfinite(v) for v in stream) or (second and not all(np.isfinite(v) for v in second)):
@@ -280,7 +298,9 @@ def replay_single(ctx, key, func, r, rng, K=8, smooth=False, force=None, data=No
         plen, reason, steps, sl, wr = pr.split(' ')
         ctx.count('looptbl:' + reason)
         if out2 != 'returned':
-            bad(f'(max_iter={m}, tol={tol:g}) raised {out2}; the row predicts a record of {plen} entries', meta, False)
+            # theorem (a): every write is inside the allocation — an IndexError out of the loop's own bookkeeping is a failure of the
+            # property itself, any other exception only a difference between model and code
+            bad(f'(max_iter={m}, tol={tol:g}) raised {out2}; the row predicts a record of {plen} entries', meta, out2 == 'IndexError')
             continue
         th2 = np.asarray(p2['tol_history'])
         alloc = r['alloc'][0] * m + r['alloc'][1]
@@ -299,8 +319,9 @@ def replay_single(ctx, key, func, r, rng, K=8, smooth=False, force=None, data=No
         got = sorted(set(int(ix[0]) for ix in spy2.written())) if spy2.final is not None else None
         if got is not None and got != want:
             bad(f'(max_iter={m}, tol={tol:g}): the call wrote tol_history at indices {got}, the row predicts {want}', meta, False)
-        ref = np.asarray(stream[:int(plen)]) if second is None else np.column_stack([stream[:int(plen)], second[:int(plen)]])
-        if not np.array_equal(th2, ref.reshape(th2.shape)):
+        nv = min(int(plen), len(stream))      # entries beyond the recorded ones are reported above as never written
+        ref = np.asarray(stream[:nv]) if second is None else np.column_stack([stream[:nv], second[:nv]])
+        if not np.array_equal(th2[:nv], ref.reshape(th2[:nv].shape)):
             bad(f'(max_iter={m}, tol={tol:g}): tol_history is not a prefix of the longer run\'s record', meta)
         if reason == 'converged' and int(plen) >= 1 and not (th2.reshape(th2.shape[0], -1)[-1, 0] < tol):
             bad(f'(max_iter={m}, tol={tol:g}): reported converged but the last entry is not below tol', meta)
@@ -361,8 +382,9 @@ def replay_nested(ctx, key, func, r, rng, smooth=False):
         D, FL, OFL = [], [], []
         for a in range(steps):
             ro, co = iw[0][1][1], iw[0][1][2]
-            na = int(np.sum(W[a + ro])) if 0 <= a + ro < W.shape[0] else 0
-            vals = Mx[a + ro, co:co + na].tolist()
+            inside = 0 <= a + ro < W.shape[0]
+            na = int(np.sum(W[a + ro])) if inside else 0
+            vals = Mx[a + ro, co:co + na].tolist() if inside else []
             D.append(vals)
             conv = na >= 1 and vals[-1] < tol
             if not conv and na < n_i:
@@ -398,7 +420,11 @@ def replay_nested(ctx, key, func, r, rng, smooth=False):
         want = sorted(tuple(int(v) for v in t.split(':')) for t in wr.split(',')) if wr != '-' else []
         got = sorted((int(a), int(b)) for a, b in np.argwhere(W))
         ctx.count('looptbl:nested-replayed')
-        if got != want:
+        if len(set(want)) != len(want):
+            twice = sorted(set(t for t in want if want.count(t) > 1))
+            dis.append(Disagreement(_stage(ctx), sig, f'{func}(max_iter={meta["max_iter"]}, max_iter_2={meta["max_iter_2"]}, tol={meta["tol"]:g}, '
+                                    f'tol_2={meta["tol_2"]:g}): the loop as written records two values into the same entry {twice} (one is lost)', meta, True))
+        elif got != want:
             dis.append(Disagreement(_stage(ctx), sig, f'{func}(max_iter={meta["max_iter"]}, max_iter_2={meta["max_iter_2"]}, tol={meta["tol"]:g}, '
                                     f'tol_2={meta["tol_2"]:g}): the call wrote tol_history at {got}, the row run on the recorded outcomes writes {want}', meta))
         if ret.shape != (int(srow), int(scol)):
@@ -412,22 +438,32 @@ def replay_nested(ctx, key, func, r, rng, smooth=False):
     return dis
 
 
+def noise_free(two_d):
+    """noise-free signals: the residuals of a good fit have fewer than two negative entries, which is what the rules' documented
+    early exit tests"""
+    if two_d:
+        X, Z = np.meshgrid(np.linspace(0, 1, 14), np.linspace(0, 1, 11), indexing='ij')
+        return {'sharp': 3 + X + 20 * np.exp(-(((X - 0.5) / 0.05) ** 2 + ((Z - 0.5) / 0.05) ** 2)), 'plane': 3 + X + 2 * Z}
+    t = np.linspace(0, 1, 60)
+    return {'sharp': 3 + t + 20 * np.exp(-((t - 0.5) / 0.02) ** 2), 'line': 3 + 2 * t}
+
+
 def correspond(ctx, golden, rng):
     dis = table_check(ctx, golden)
     rows = [(key, func, kind, r) for key, func, kind, r in _rows() if kind != 'failed']
     for key, func, kind, r in rows:
         smooth = rng.random() < 0.3       # nearly noise-free data provoke the documented early exit of some rules
         if kind == 'single':
-            if func.endswith('_sparse_beads'):
-                import pybaselines.misc as misc
-                saved = misc._HAS_NUMBA
-                misc._HAS_NUMBA = False       # the sparse implementation is the one used without Numba
-                try:
-                    dis += replay_single(ctx, key, func, r, rng, smooth=smooth)
-                finally:
-                    misc._HAS_NUMBA = saved
-            else:
+            if True:
                 dis += replay_single(ctx, key, func, r, rng, smooth=smooth)
+                if any(ev[0] == 'brk' and ev[1] == 'flag' for ev in r['body']):
+                    # the early-exit path: noise-free data (C09 replays every such row on all of them)
+                    two_d = key.startswith('2d.')
+                    sets = noise_free(two_d)
+                    names = sorted(sets) if ctx.thorough else [sorted(sets)[int(rng.integers(0, len(sets)))]]
+                    x, z, _ = _data(rng, two_d)
+                    for dn in names:
+                        dis += replay_single(ctx, key, func, r, rng, K=24, data=(x, z, sets[dn]), note=f' [noise-free {dn} data]')
         else:
             dis += replay_nested(ctx, key, func, r, rng, smooth=smooth)
     return dis
